@@ -52,7 +52,40 @@ func DecodeMap(bytes []byte) (*AmmoConfig, error) {
 	if err != nil {
 		return nil, fmt.Errorf("%s, config.DecodeAndValidate, %w", op, err)
 	}
+	err = checkNoEmptyItems(&ammoCfg)
+	if err != nil {
+		return nil, fmt.Errorf("%s, %w", op, err)
+	}
 	return &ammoCfg, nil
+}
+
+// checkNoEmptyItems rejects empty list items (`- ` without a value), which decode to nil components.
+func checkNoEmptyItems(cfg *AmmoConfig) error {
+	for i, source := range cfg.VariableSources {
+		if source == nil {
+			return fmt.Errorf("variable source #%d is empty", i)
+		}
+	}
+	for _, req := range cfg.Requests {
+		for i, p := range req.Postprocessors {
+			if p == nil {
+				return fmt.Errorf("request %s: postprocessor #%d is empty", req.Name, i)
+			}
+		}
+	}
+	for _, call := range cfg.Calls {
+		for i, p := range call.Preprocessors {
+			if p == nil {
+				return fmt.Errorf("call %s: preprocessor #%d is empty", call.Name, i)
+			}
+		}
+		for i, p := range call.Postprocessors {
+			if p == nil {
+				return fmt.Errorf("call %s: postprocessor #%d is empty", call.Name, i)
+			}
+		}
+	}
+	return nil
 }
 
 func ExtractVariableStorage(cfg *AmmoConfig) (*vs.SourceStorage, error) {
